@@ -162,6 +162,9 @@ private:
 	static void ASL_THREADFUNC_API beginf(void* p)
 	{
 		Context<Func> s = *(Context<Func>*)p;
+#ifdef ASL_VERIF
+		asl_verif_point(ASL_VP_READY, p); // the creator may run here: it must still be waiting, and its context must still be intact
+#endif
 		((Context<Func>*)p)->ready = true;
 		s.f();
 #ifdef ASL_VERIF
@@ -174,6 +177,9 @@ private:
 	{
 		if (!p) return;
 		Context<Func> s = *(Context<Func>*)p;
+#ifdef ASL_VERIF
+		asl_verif_point(ASL_VP_READY, p); // the creator may run here: it must still be waiting, and its context must still be intact
+#endif
 		((Context<Func>*)p)->ready = true;
 		for (int i = s.i0; i < s.i1; i += s.s)
 		{
